@@ -1,5 +1,5 @@
 (* C05: what a second encode() does.  (a) instrumentation side: on a body whose special-mode lists are all
-   empty (the state the first encode leaves behind outside D31) the resolution pass changes nothing;
+   empty (the state the first encode leaves behind: Proofs/Cleared.v, for every plan) the resolution pass changes nothing;
    (b) index side: when an id map is the identity on its domain, every reference is emitted unchanged, so
    re-applying the map to the already rewritten references changes nothing (otherwise: D01). *)
 From Coq Require Import List Arith NArith ZArith Bool Lia.
